@@ -162,7 +162,9 @@ def sanitize(c):
         for j, op in enumerate(t):
             name = op.split()[0] if not op.startswith("@") else op.split()[1]
             if name == "bufnew":
-                live = op.split()[-1] != "0"
+                if op.split()[-1] == "0":
+                    break          # documented panic: the thread ends here, what follows is never executed
+                live = True
             elif name == "bufdrop":
                 live = False
             elif name == "bufnext" and not live:
